@@ -648,7 +648,7 @@ func checkC16(c *Case, trace bool) *CaseResult {
 		}
 		for f, x := range fa {
 			if y, ok := fb[f]; ok && x != y {
-				msg = fmt.Sprintf("f%d received %s in one order and %s in the other", f, x, y)
+				msg, at = fmt.Sprintf("f%d received %s in one order and %s in the other", f, x, y), -1
 			}
 		}
 		res.Stats["diff.wirings-compared"] += len(ia) + len(fa)
@@ -663,7 +663,7 @@ func checkC16(c *Case, trace bool) *CaseResult {
 		wt := newWorld(t, true, false)
 		wt.Run()
 		switch {
-		case wm.mon.decoratorMediatedCycle(wm.mon.role):
+		case mediatedCycleInvolved(wm, at) || mediatedCycleInvolved(wt, -1):
 			v.Class = "decorator-mediated-cycle"
 			res.Stats["diff.c16.decorator-mediated-cycle"]++
 		case cutShortDiffers(a, b, mapping, wm.mon.swallowedOps, wt.mon.swallowedOps):
@@ -673,6 +673,26 @@ func checkC16(c *Case, trace bool) *CaseResult {
 		res.Viol = append(res.Viol, v)
 	}
 	return res
+}
+
+// mediatedCycleInvolved (known finding F22): a decorator that lies on a decorator-mediated cycle can take
+// part in the resolution of the divergent Invoke (op index at; at < 0: of some Invoke of the history).
+func mediatedCycleInvolved(w *World, at int) bool {
+	cyc := w.mon.decoratorsInMediatedCycle(w.mon.role)
+	if len(cyc) == 0 {
+		return false
+	}
+	for op, may := range w.mon.mayOf {
+		if at >= 0 && op != at {
+			continue
+		}
+		for d := range cyc {
+			if may[d] {
+				return true
+			}
+		}
+	}
+	return false
 }
 
 // cutShortDiffers (known finding F23): some Invoke that a dependency failure cut short - it failed in
